@@ -49,6 +49,7 @@ type NLReq struct {
 	Errno  int  // what was answered
 	Late   bool // effect applied although an error was answered
 	Fault  bool // the answer was dictated by an injected fault
+	FaultTag string
 	Exists bool // rule existed before the request
 }
 
@@ -60,6 +61,7 @@ type FaultSpec struct {
 	Errno int    `json:"errno"`
 	Late  bool   `json:"late,omitempty"`
 	Empty bool   `json:"empty,omitempty"` // answer success but without data
+	Tag   string `json:"tag,omitempty"`   // a narrow fault kind some oracles know how to judge around
 }
 
 // KReport is a usage report the kernel produced, with the values it put on the wire.
@@ -494,7 +496,16 @@ func (k *Kernel) handle(r *NLReq) {
 		f := k.matchFault(r)
 		if f != nil {
 			r.Fault = true
+			r.FaultTag = f.Tag
 			s.fired("dp."+faultName(f), 1)
+			if f.Tag == "" {
+				s.fired("dp.untagged", 1)
+			} else {
+				s.fired("dp.tag."+f.Tag, 1)
+				if f.Tag == "delurr" && !k.auto {
+					s.model.delFaulted[r.Key] = true
+				}
+			}
 		}
 		errno, data = k.exec(r, f, pid)
 	default:
